@@ -572,6 +572,40 @@ func (fx *FuncCtx) applyContract(st *State, ct *Contract, names []string, args [
 			fx.havocEscaped(st, a)
 		}
 	}
+	// higher-order library function: the function value passed for `invokes p` is called here,
+	// so its contract's preconditions are checked in the caller's state and its effects apply
+	if ct.Invokes != "" {
+		if fv := vars[ct.Invokes]; fv != nil && fv.Fn != nil {
+			if cct := fx.eng.contractFor(fv.Fn); cct != nil {
+				var cn []string
+				var ca []*Val
+				for _, p := range fv.Fn.Params {
+					cn = append(cn, p.Name())
+					a := fx.freshVal(st, "cb_"+sanitize(p.Name()), p.Type())
+					if _, isPtr := p.Type().Underlying().(*types.Pointer); isPtr && a.T != "" {
+						fx.assume(st, "(not (= "+a.T+" 0))")
+					}
+					ca = append(ca, a)
+				}
+				for i, fvv := range fv.Fn.FreeVars {
+					cn = append(cn, fvv.Name())
+					if i < len(fv.Binds) {
+						ca = append(ca, fv.Binds[i])
+					} else {
+						ca = append(ca, fx.freshVal(st, "bind", fvv.Type()))
+					}
+				}
+				var crt types.Type = fv.Fn.Signature.Results()
+				if fv.Fn.Signature.Results().Len() == 1 {
+					crt = fv.Fn.Signature.Results().At(0).Type()
+				}
+				fx.applyContract(st, cct, cn, ca, crt, cct.Key, pos, fv.Fn)
+			} else {
+				fx.note("function value passed to %s has no contract: its effects are havocked", short)
+				fx.havocAll(st)
+			}
+		}
+	}
 	// results
 	var res *Val
 	if ct.Pure && resT != nil {
